@@ -12,6 +12,7 @@ pub mod fs;
 pub mod gen;
 pub mod monitors;
 pub mod net;
+pub mod ossl_rand;
 pub mod plan;
 pub mod prng;
 pub mod process;
